@@ -8,7 +8,9 @@ namespace Qrl.BdsLabel
 open Qrl.Bds
 
 /-- true authentication path of leaf `i`: at each height the sibling of the ancestor -/
-def trueAuth (h i : Nat) : List Lbl := (List.range h).map (fun j => .nd j ((i >>> j) ^^^ 1))
+def sib (n : Nat) : Nat := if n % 2 = 0 then n + 1 else n - 1
+
+def trueAuth (h i : Nat) : List Lbl := (List.range h).map (fun j => .nd j (sib (i >>> j)))
 
 /-- check indices `i, i+1, …, i+n-1` starting from state `s` (the state belonging to index `i`) -/
 def checkFrom (h : Nat) : Nat → Nat → St Lbl → Bool
